@@ -39,6 +39,7 @@ type gstate struct {
 	maxDelegates            int
 	nextNonce               int64
 	eth                     uint64
+	otherValid              int
 }
 
 func (g *gstate) threshold() int {
@@ -105,6 +106,12 @@ func genInit(r *rand.Rand) (string, *gstate) {
 	if r.Intn(3) == 0 {
 		nreg = 3 + r.Intn(zcnw.NKeys-2)
 	}
+	// rounding cases: fraction × count with a fractional part (2.8, 3.5, 4.2, 2.5, 1.5, 4.5 …): RoundToEven, floor and
+	// ceiling differ; the mint scenarios "exactly the threshold" / "one short" then sit on both sides of each
+	if r.Intn(3) == 0 {
+		c := [][2]float64{{0.7, 4}, {0.7, 5}, {0.7, 6}, {0.5, 5}, {0.5, 3}, {0.75, 6}, {0.25, 6}, {0.66, 4}, {0.9, 4}, {0.3, 5}, {0.7, 3}, {0.9, 6}}[r.Intn(12)]
+		g.percent, nreg = c[0], int(c[1])
+	}
 	perm := r.Perm(zcnw.NKeys)
 	var regs []string
 	for j, k := range perm {
@@ -155,6 +162,12 @@ func genInit(r *rand.Rand) (string, *gstate) {
 		}
 	}
 	var minted []string
+	if r.Intn(3) == 0 { // 6..12 nonces minted long ago: most of them no longer in the "last" partition
+		for n := int64(0); n < int64(6+r.Intn(7)); n++ {
+			g.minted[n] = true
+			minted = append(minted, strconv.FormatInt(n, 10))
+		}
+	}
 	for j := 0; j < r.Intn(3); j++ {
 		n := int64(r.Intn(6))
 		if !g.minted[n] {
@@ -163,7 +176,11 @@ func genInit(r *rand.Rand) (string, *gstate) {
 		}
 	}
 	g.nextNonce = 10
-	line := fmt.Sprintf("init %d %d %d %d %s %d %d %d | %s | %s | %s | %s | %d | %s", fee, 10, g.minMint, g.maxFee, hexF(g.percent), g.owner, g.minSPD, g.maxDelegates,
+	g.otherValid = 1
+	if r.Intn(10) == 0 {
+		g.otherValid = 0
+	}
+	line := fmt.Sprintf("init %d %d %d %d %s %d %d %d %d | %s | %s | %s | %s | %d | %s", fee, 10, g.minMint, g.maxFee, hexF(g.percent), g.owner, g.minSPD, g.maxDelegates, g.otherValid,
 		strings.Join(accts, " "), strings.Join(users, " "), zcnw.KeysSection(), strings.Join(regs, " "), g.count, strings.Join(minted, " "))
 	return line, g
 }
@@ -222,8 +239,13 @@ func genMint(r *rand.Rand, g *gstate) string {
 	}
 	mnonce := g.nextNonce
 	g.nextNonce++
-	if r.Intn(7) == 0 { // a nonce seen before (minted or merely tried)
+	replay := false
+	if r.Intn(6) == 0 { // a nonce seen before (minted or merely tried), old ones included
 		mnonce = int64(r.Intn(int(g.nextNonce)))
+		if r.Intn(2) == 0 {
+			mnonce = int64(r.Intn(4)) // the oldest
+		}
+		replay = true
 	}
 	if r.Intn(40) == 0 {
 		mnonce = []int64{0, -1, 1<<63 - 1, -1 << 63}[r.Intn(4)]
@@ -283,6 +305,10 @@ func genMint(r *rand.Rand, g *gstate) string {
 		return regs[:n]
 	}
 	scenario := r.Intn(23)
+	if replay && r.Intn(3) != 0 {
+		scenario = r.Intn(5) // an otherwise honest request
+		recv, amt = sender, lo+int64(r.Intn(50))
+	}
 	switch {
 	case scenario >= 21: // free mixture of every kind of signature entry, in any order
 		m := 1 + thr + r.Intn(3)
@@ -327,8 +353,15 @@ func genMint(r *rand.Rand, g *gstate) string {
 		for _, k := range take(n) {
 			sigs = append(sigs, valid(k))
 		}
-	case scenario < 7: // exactly the threshold
-		for _, k := range take(thr) {
+	case scenario < 7: // exactly the threshold — or exactly floor / ceiling of fraction × count
+		n := thr
+		switch r.Intn(4) {
+		case 0:
+			n = int(math.Floor(g.percent * float64(g.count)))
+		case 1:
+			n = int(math.Ceil(g.percent * float64(g.count)))
+		}
+		for _, k := range take(n) {
 			sigs = append(sigs, valid(k))
 		}
 	case scenario < 9: // one short of the threshold
@@ -432,6 +465,45 @@ func gen(r *rand.Rand, thorough bool, i int) []string {
 		n = 5 + r.Intn(40)
 	}
 	for k := 0; k < n; k++ {
+		if r.Intn(12) == 0 { // update-global-config: threshold fraction, fee, minimum, owner; accepted and rejected
+			us := g.owner
+			if r.Intn(5) == 0 {
+				us = 2 + r.Intn(zcnw.NIDs-2)
+			}
+			nn := g.nonce[us] + 1
+			var parts []string
+			np, nf, nm, no := g.percent, g.maxFee, g.minMint, g.owner
+			valid := true
+			for _, k := range r.Perm(5)[:1+r.Intn(2)] {
+				switch k {
+				case 0:
+					np = percents[r.Intn(len(percents))]
+					parts = append(parts, "pa="+hexF(np))
+				case 1:
+					nf = []uint64{1, 7, 100, 1000, 0}[r.Intn(5)]
+					parts = append(parts, fmt.Sprintf("mf=%d", nf))
+				case 2:
+					nm = []uint64{1, 100, 1000, 10000000000, 0}[r.Intn(5)]
+					parts = append(parts, fmt.Sprintf("mm=%d", nm))
+				case 3:
+					no = 2 + r.Intn(zcnw.NIDs-2)
+					parts = append(parts, fmt.Sprintf("ow=%d", no))
+				case 4:
+					parts = append(parts, fmt.Sprintf("bad=%d", r.Intn(4)))
+					valid = false
+				}
+			}
+			arg := strings.Join(parts, ",")
+			if r.Intn(25) == 0 {
+				arg, valid = "!", false
+			}
+			ops = append(ops, fmt.Sprintf("updcfg %d 0 %d %d %s", us, r.Intn(20), nn, arg))
+			g.nonce[us] = nn
+			if valid && us == g.owner && g.otherValid == 1 && nf >= 1 && nm >= 1 {
+				g.percent, g.maxFee, g.minMint, g.owner = np, nf, nm, no
+			}
+			continue
+		}
 		switch x := r.Intn(100); {
 		case x < 62:
 			ops = append(ops, genMint(r, g))
@@ -539,6 +611,9 @@ type pool struct {
 }
 
 type st struct {
+	cfg                string // the configuration stored in the state
+	maxFee             uint64
+	percent            float64
 	status, cls, extra string
 	accts              map[int]acct
 	users              string
@@ -553,15 +628,24 @@ type st struct {
 func parse(out string, isInit bool) (s st, ok bool) {
 	f := strings.Fields(out)
 	if isInit {
-		if len(f) != 8 || f[0] != "ok" {
+		if len(f) != 9 || f[0] != "ok" {
 			return s, false
 		}
 		f = append([]string{"ok", "-", "-"}, f[1:]...)
 	}
-	if len(f) != 10 {
+	if len(f) != 11 || !strings.HasPrefix(f[3], "g=") {
 		return s, false
 	}
 	s.status, s.cls, s.extra = f[0], f[1], f[2]
+	s.cfg = f[3]
+	if g := strings.Split(strings.TrimPrefix(f[3], "g="), ","); len(g) == 8 {
+		s.maxFee, _ = strconv.ParseUint(g[2], 10, 64)
+		pb, _ := strconv.ParseUint(g[3], 16, 64)
+		s.percent = math.Float64frombits(pb)
+	} else {
+		return s, false
+	}
+	f = append(f[:3:3], f[4:]...)
 	s.accts = map[int]acct{}
 	if as := strings.TrimPrefix(f[3], "a="); as != "" {
 		for _, p := range strings.Split(as, ",") {
@@ -676,8 +760,6 @@ func oracle(ops, outs []string) *corr.Violation {
 	}
 	var prev st
 	feeOn := false
-	var maxFee uint64
-	var percent float64
 	minted := map[int64]bool{}
 	var recorded []*corr.Violation // violations with the signature of a recorded finding (reported only if nothing else fails)
 	for i, op := range ops {
@@ -691,9 +773,6 @@ func oracle(ops, outs []string) *corr.Violation {
 				return mk("unparsable-answer", outs[i], i)
 			}
 			feeOn = w[1] == "1"
-			maxFee, _ = strconv.ParseUint(w[4], 10, 64)
-			pb, _ := strconv.ParseUint(w[5], 16, 64)
-			percent = math.Float64frombits(pb)
 			minted = map[int64]bool{}
 			for _, n := range zcnw.NonceUniverse(ops[:1]) {
 				minted[n] = true
@@ -709,8 +788,15 @@ func oracle(ops, outs []string) *corr.Violation {
 			return mk("unparsable-answer", outs[i], i)
 		}
 		if w[0] != "mint" {
+			if cur.status != "success" && cur.cfg != prev.cfg {
+				return mk("rejected-update-changed-config", fmt.Sprintf("%s -> %s", prev.cfg, cur.cfg), i)
+			}
 			prev = cur
 			continue
+		}
+		maxFee, percent := prev.maxFee, prev.percent // the configuration SAVED IN THE STATE before this mint
+		if cur.cfg != prev.cfg {
+			return mk("mint-changed-config", fmt.Sprintf("%s -> %s", prev.cfg, cur.cfg), i)
 		}
 		sender, _ := strconv.Atoi(w[1])
 		fee, _ := new(big.Int).SetString(w[3], 10)
@@ -860,9 +946,55 @@ func oracle(ops, outs []string) *corr.Violation {
 func main() {
 	zcnw.Setup()
 	sk := func(k int) string { return zcnw.Keys[k].SK }
-	init3 := fmt.Sprintf("init 1 10 100 100 %s 2 50 5 | 1:100000:0 2:1000:0 3:1000:0 | | %s | 0:4:3:%s:0:0:50:100.0 1:4:3:%s:0:0:50:60.0/40.0 2:5:3:%s:0:0:50:200.0 | 3 | 7",
+	init3 := fmt.Sprintf("init 1 10 100 100 %s 2 50 5 1 | 1:100000:0 2:1000:0 3:1000:0 | | %s | 0:4:3:%s:0:0:50:100.0 1:4:3:%s:0:0:50:60.0/40.0 2:5:3:%s:0:0:50:200.0 | 3 | 7",
 		hexF(0.7), zcnw.KeysSection(), hexF(0.1), hexF(0.25), hexF(0))
 	tb := func(seed int64) string { return fmt.Sprintf("%d~%s", seed, zcnw.PickTable(seed, 16)) }
+	// n registered, well-staked authorizers, fraction pct, some nonces minted in genesis
+	initN := func(n int, pct float64, count int, minted string) string {
+		var regs []string
+		for k := 0; k < n; k++ {
+			regs = append(regs, fmt.Sprintf("%d:4:3:%s:0:0:50:100.0", k, hexF(0)))
+		}
+		return fmt.Sprintf("init 1 10 100 100 %s 2 50 5 1 | 1:10000000:0 2:100000:0 3:100000:0 | | %s | %s | %d | %s", hexF(pct), zcnw.KeysSection(), strings.Join(regs, " "), count, minted)
+	}
+	// a mint by client 3 with valid signatures of the authorizers 0..m-1
+	nth := 0
+	mintBy := func(m int, nonce int64) string {
+		nth++
+		var ss []string
+		for k := 0; k < m; k++ {
+			ss = append(ss, fmt.Sprintf("k%d/%s=", k, sk(k)))
+		}
+		return fmt.Sprintf("mint 3 0 5 %d %d:5000:%d:3:%s:%s", nth, nth, nonce, strings.Join(ss, ","), tb(int64(nth)))
+	}
+	rounding := func(n int, pct float64, count int) []string {
+		nth = 0
+		x := pct * float64(count)
+		c := []string{initN(n, pct, count, "")}
+		seen := map[int]bool{}
+		for _, m := range []int{int(math.Floor(x)) - 1, int(math.Floor(x)), int(math.RoundToEven(x)), int(math.Ceil(x)), int(math.Ceil(x)) + 1} {
+			if m >= 1 && m <= n && !seen[m] {
+				seen[m] = true
+				c = append(c, mintBy(m, int64(100+m)))
+			}
+		}
+		return c
+	}
+	replayOld := func() []string {
+		nth = 0
+		c := []string{initN(3, 0.7, 3, "")}
+		for j := int64(1); j <= 8; j++ {
+			c = append(c, mintBy(2, j))
+		}
+		for _, j := range []int64{1, 2, 3, 8} { // the first ones were packed out of the last partition (size 5) long ago
+			c = append(c, mintBy(2, j))
+		}
+		return c
+	}
+	replayGenesis := func() []string {
+		nth = 0
+		return []string{initN(3, 0.7, 3, "0 1 2 3 4 5 6 7 8 9 10 11"), mintBy(2, 0), mintBy(3, 1), mintBy(2, 6), mintBy(2, 11), mintBy(2, 12), mintBy(2, 12)}
+	}
 	corr.Main(corr.Prop{
 		ID: "C18", Model: "C18", Gen: gen, Impl: zcnw.Impl, Oracle: oracle, Serial: true,
 		Cases: func(th bool) int {
@@ -872,6 +1004,11 @@ func main() {
 			return 300
 		},
 		Fixed: [][]string{
+			// one below / at / one above floor, RoundToEven and ceiling of fraction × count
+			rounding(4, 0.7, 4), rounding(5, 0.7, 5), rounding(6, 0.7, 7), rounding(5, 0.5, 5), rounding(6, 0.25, 6), rounding(6, 0.75, 6),
+			rounding(3, 0.5, 3), rounding(4, 0.66, 4), rounding(6, 0.9, 6),
+			// replays of nonces minted long ago (more than a partition's worth of mints back)
+			replayOld(), replayGenesis(),
 			{init3, // honest quorum 2 of 3 (threshold RoundToEven(2.1) = 2), repeat of the nonce, one short, duplicate ids
 				fmt.Sprintf("mint 3 0 5 1 1:5000:1:3:k0/%s=,k1/%s=:%s", sk(0), sk(1), tb(1)),
 				fmt.Sprintf("mint 3 0 5 2 2:5000:1:3:k0/%s=,k1/%s=,k2/%s=:%s", sk(0), sk(1), sk(2), tb(2)),
